@@ -1,0 +1,101 @@
+//go:build verif
+
+package parser
+
+// Contracts for property C01, narrow claim: the scanner never indexes or slices the source text
+// out of range (every implicit index/slice check in these functions is an obligation: "safe").
+
+//@ func isLineTerminator pure
+//@ func isLineWhiteSpace pure
+//@ func digitValue pure
+//@ func isDigit pure
+
+// Assumed: recording an error only appends to the error list.
+//@ func (*_parser).error
+//@   props C01
+//@   trusted
+//@   assigns self.errors
+//@ func (*_parser).errorUnexpected
+//@   props C01
+//@   trusted
+//@   assigns self.errors
+
+//@ func (*_parser)._peek safe
+//@   props C01
+//@   requires specLexWF(self)
+//@   assigns nothing
+
+//@ func (*_parser).read safe
+//@   props C01
+//@   requires specLexWF(self)
+//@   ensures specLexWF(self) && self.chrOffset >= old(self.chrOffset) && self.offset >= old(self.offset) [cursor-wf-and-monotone]
+//@   ensures self.str == old(self.str) && self.length == old(self.length) [text-unchanged]
+//@   assigns self.chrOffset, self.offset, self.chr, self.errors
+
+//@ func (*_parser).skipSingleLineComment safe
+//@   props C01
+//@   requires specLexWF(self)
+//@   loop 1 invariant specLexWF(self) [cursor-wf]
+//@   ensures specLexWF(self) [cursor-wf]
+
+//@ func (*_parser).skipMultiLineComment safe
+//@   props C01
+//@   requires specLexWF(self)
+//@   loop 1 invariant specLexWF(self) [cursor-wf]
+//@   loop 2 invariant specLexWF(self) [cursor-wf]
+//@   ensures specLexWF(self) [cursor-wf]
+
+//@ func (*_parser).skipWhiteSpaceCheckLineTerminator safe
+//@   props C01
+//@   requires specLexWF(self)
+//@   loop 1 invariant specLexWF(self) [cursor-wf]
+//@   ensures specLexWF(self) [cursor-wf]
+
+//@ func (*_parser).skipWhiteSpace safe
+//@   props C01
+//@   requires specLexWF(self)
+//@   loop 1 invariant specLexWF(self) [cursor-wf]
+//@   ensures specLexWF(self) [cursor-wf]
+
+//@ func (*_parser).scanMantissa safe
+//@   props C01
+//@   requires specLexWF(self)
+//@   loop 1 invariant specLexWF(self) [cursor-wf]
+//@   ensures specLexWF(self) [cursor-wf]
+
+//@ func (*_parser).scanNewline safe
+//@   props C01
+//@   requires specLexWF(self)
+//@   ensures specLexWF(self) && self.chrOffset >= old(self.chrOffset) && self.str == old(self.str) [cursor-wf-and-monotone]
+
+//@ func isIdStartUnicode uninterpreted
+//@ func isIdPartUnicode uninterpreted
+//@ func isIdentifierStart pure
+//@ func isIdentifierPart pure
+//@ func hex2decimal pure
+
+//@ func (*_parser).scanIdentifier safe
+//@   props C01
+//@   requires specLexWF(self)
+//@   loop 1 vars offset int
+//@   loop 1 invariant specLexWF(self) && 0 <= offset && offset <= self.chrOffset [cursor-wf]
+//@   loop 2 vars offset int
+//@   loop 2 invariant specLexWF(self) && 0 <= offset && offset <= self.chrOffset [cursor-wf]
+//@   loop 3 vars offset int, j int
+//@   loop 3 invariant specLexWF(self) && 0 <= offset && offset <= self.chrOffset && j >= 0 [cursor-wf]
+
+//@ func (*_parser).scanEscape safe
+//@   props C01
+//@   requires specLexWF(self)
+//@   loop 1 invariant specLexWF(self) [cursor-wf]
+//@   loop 2 invariant specLexWF(self) [cursor-wf]
+//@   ensures specLexWF(self) && self.chrOffset >= old(self.chrOffset) && self.str == old(self.str) [cursor-wf-and-monotone]
+
+//@ func (*_parser).idxOf pure
+
+// The two callers pass the position of the opening quote (or slash), which lies before the cursor.
+//@ func (*_parser).scanString safe
+//@   props C01
+//@   requires specLexWF(self) && 0 <= offset && offset < self.chrOffset
+//@   loop 1 vars offset int
+//@   loop 1 invariant specLexWF(self) && 0 <= offset && offset < self.chrOffset && self.str == old(self.str) [cursor-wf]
